@@ -54,7 +54,7 @@ def run(ctx):
     required = ["strict_refuses", "strict_refuses_with_reason", "strict_decision_table", "strict_running", "lenient_accepts", "moved_keys_refused",
                 "cli_secrets_refused", "outbound_https_only", "lenient_follows_http", "tls_off_network_disabled", "refusals_independent",
                 "fact_default_strict", "fact_parse_public_url", "fact_reserved_lists", "fact_moved_keys", "fact_secret_flag_rule",
-                "fact_engine_conditions", "fact_http_client", "fact_iam_strictmode", "fact_outbound_inventory", "fact_iam_call_sites", "fact_misc_sites", "fact_redirect_check_reads_global", "early_client_strict", "iam_endpoints_strict", "iam_endpoint_witness", "fact_engine_order", "fact_secret_flags", "fact_flags_resolved", "fact_redacted_keys"]
+                "fact_engine_conditions", "fact_http_client", "fact_iam_strictmode", "fact_outbound_inventory", "fact_iam_call_sites", "fact_misc_sites", "fact_filter_and_validator_comparisons", "remote_contexts_exact", "remote_context_prefix_witness", "dummy_any_spelling", "fact_redirect_check_reads_global", "early_client_strict", "iam_endpoints_strict", "iam_endpoint_witness", "fact_engine_order", "fact_secret_flags", "fact_flags_resolved", "fact_redacted_keys"]
     for r in required:
         if not any(t.endswith("Props." + r) for t in thms):
             ctx.oblige("thm-present:" + r, False, "theorem missing or its module does not build")
@@ -158,6 +158,17 @@ def run(ctx):
                 violation("cli-flag-refused:" + op["flag"], f"--{op['flag']}={op.get('value')} not accepted: {line}", opl)
             if not secret and re.search(r"token|password|secret|credential|connection|clientsecret|apikey", op["flag"]):
                 odd_accepted.append(op["flag"])
+        elif kind == "ctx":
+            u = bytes.fromhex(op.get("s", "")).decode("latin1")
+            allow = op.get("allow") or []
+            outcomes["ctx " + ("strict " if strict else "lenient ") + line.split()[1] + (" listed" if u in allow else " unlisted")] += 1
+            distinct.add(("ctx", u, tuple(allow), strict))
+            if strict and u not in allow and (op.get("fetches", 0) > 0 or line != "ctx refused"):
+                violation("strict-unlisted-remote-context:filter", f"strict loader let the unlisted context URL {u!r} through (allow-list {allow}); outbound fetches attempted: {op.get('fetches', 0)}", opl)
+            if u in allow and line != "ctx passed":
+                violation("listed-context-refused", f"allow-listed context {u!r} refused: {line}", opl)
+            if not strict and line != "ctx passed":
+                violation("lenient-refused:remote-context", f"lenient loader refused {u!r}: {line}", opl)
         elif kind == "flags":
             names = [a.split("=", 1)[0] for a in op.get("args", [])]
             secret = [n for n in names if n.endswith("token") or n.endswith("password")]
@@ -192,7 +203,7 @@ def run(ctx):
                 if line.startswith("sys ok"):
                     pr = dict(kv.split("=", 1) for kv in line.split()[2:])
                     if pr.get("dummy") != "absent":
-                        violation("strict-dummy-means-registered", "started strict node offers the dummy (test-only) signing means", opl)
+                        violation("strict-dummy-means-registered", f"started strict node offers the dummy (test-only) means ({pr.get('dummy')}; configured as {op.get('dummyname') or 'not configured'})", opl)
                     if pr.get("remotectx") != "refused":
                         violation("strict-unlisted-remote-context", "started strict node tried to fetch a JSON-LD context that is not on the allow-list", opl)
                     if pr.get("clientstrict") != "true":
